@@ -580,6 +580,13 @@ def tx_line(text):
     return "TX %s t:%s" % (cfg, ",".join(toks) or "-")
 
 
+def tb_line(data):
+    """the case line for the binary-reader model (coq/C11/BinReadModel.v): the objects of CONFIG in the order of the
+    module's lists (variable d; harmonic h before metadynamics m) and the bytes of the (damaged) file"""
+    hx = lambda t: t.encode().hex()
+    return "TB n:1 b:%s.%s.0.1,%s.%s.1.1 d:%s" % (hx("restraint"), hx("harmonic"), hx("metadynamics"), hx("metadynamics"), data.hex())
+
+
 def run_damage(run, vsim, d, quick, model=None):
     r = V.rng("C11damage")
     sess = {"first": 0, "pre": 6, "saves": ["text", "binary"]}
@@ -607,6 +614,7 @@ def run_damage(run, vsim, d, quick, model=None):
     pat = struct.pack("<Q", 4) + b"hill"
     hill_starts = [m.start() for m in re.finditer(re.escape(pat), binary)]
     text_verdicts = []
+    binary_verdicts = []
     for nm, data in (("text", text), ("binary", binary)):
         n = len(data)
         if quick:
@@ -639,6 +647,8 @@ def run_damage(run, vsim, d, quick, model=None):
                                   "a text state cut at byte %d, inside the %s block, loads without any error (LOAD err=ok it=%d)" % (cut, inside[0], ld[1]),
                                   {"kind": "load", "format": nm, "cut": cut, "scenario": scenario(sess, distinct=True)})
             else:
+                if cut > 4:
+                    binary_verdicts.append((cut, "ok" if ld[0] == "ok" else "err"))
                 if ld[0] == "ok" and cut > 4:
                     stats["binary_prefix_accepted"] += 1
                     if cut in hill_starts:
@@ -662,6 +672,17 @@ def run_damage(run, vsim, d, quick, model=None):
                     run.mismatch("text-reader-tie", {"cut": cut, "of": n, "tail": data[max(0, cut - 30):cut].decode("latin1")}, verdict, mo.strip())
             stats["text_reader_model_cases"] = len(lines)
             stats["text_reader_model_disagreements"] = ndis
+        if nm == "binary" and model is not None and binary_verdicts:
+            # tie of the binary-reader model (d): error / no error for every prefix explored (beyond the magic number)
+            lines = [tb_line(data[:cut]) for cut, _ in binary_verdicts]
+            rcm, mout, em = V.run_lines(model, lines, timeout=900)
+            ndis = 0
+            for (cut, verdict), mo in zip(binary_verdicts, mout + ["<none>"] * (len(lines) - len(mout))):
+                if mo.strip() != verdict:
+                    ndis += 1
+                    run.mismatch("binary-reader-tie", {"cut": cut, "of": n, "hill_starts": hill_starts[:3]}, verdict, mo.strip())
+            stats["binary_reader_model_cases"] = len(lines)
+            stats["binary_reader_model_disagreements"] = ndis
         flips = [(r.randrange(n), r.randrange(8)) for j in range(60 if quick else 4000)]
         if nm == "text":
             # aimed: every byte of the configuration block (step, dt, version, units and the separators)
